@@ -255,6 +255,34 @@ NA = {
 }
 
 
+# obligations added after independently seeded changes escaped the first version of a check
+ADDED = {
+    'C01': 'One obligation supplies the document as a file: real writer -> real reader handlers (text in '
+           'one or two chunks) -> add.',
+    'C02': 'The extension round trip includes pronunciations on external lemmas and forms.',
+    'C03': 'An installed dependency must not change the exported <Requires>; the scan that wn.add(file) '
+           'relies on (scan_lexicons) names exactly the exported lexicons.',
+    'C04': 'The walk takes a second step from placeholder (*INFERRED*) synsets; an ILI index with '
+           'definitions is loaded between the lexicons.',
+    'C05': 'The alphabet includes an invalid lexicon and an invalid extension whose add fails late; '
+           "SQLite's progress handler may fire in any statement; PRAGMA foreign_keys is modelled.",
+    'C06': 'An installed lexicon waits for the lexicons of the failing resource (dependency re-linking '
+           'inside the transaction); thorough tier: the resource also holds an extension.',
+    'C12': 'An extension of E that owns a relation between two synsets of E is borrowed exactly when it '
+           'is among the expand lexicons, with itself as the defining lexicon.',
+    'C14': 'Solver queries also cover: wn.Error when the synsets share no hypernym, whatever the IC values.',
+    'C15': 'load() is checked on weights written as integer, decimal, exponent and without leading digit.',
+    'C17': 'Includes a query that is both a listed irregular form and a regular inflection; wn.Form keeps '
+           'equal objects hashing equally (Morphy looks plain strings up in sets of Forms).',
+    'C18': 'The items of every check are the same alone and in a full run (shared id tables); W403 with '
+           'mixed dc:type; a lexicon for which E204/E401 is reported is refused by add() whatever else '
+           'is installed.',
+    'C20': 'Headers with byte order marks; documents cut off after a solver-chosen line are rejected by '
+           'load() (expat runs natively on the concrete bytes); attribute values that look like '
+           'id="..." inside other attributes.',
+}
+
+
 def main():
     props = [json.loads(l) for l in open(os.path.join(VERIF, 'properties.jsonl'))]
     checks = []
@@ -270,7 +298,8 @@ def main():
                 'evidence_file': f'evidence/{pid}.json',
                 'replay_cmd_template': f'./check {pid} --replay {{path}}',
                 'engine': 'chx',
-                'level_claimed': {'category': 'model_checking', 'text': c['text'],
+                'level_claimed': {'category': 'model_checking',
+                                  'text': c['text'] + (' ' + ADDED[pid] if pid in ADDED else ''),
                                   'design_ref': 'DESIGN.md section ' + c['ref']},
                 'level_note': c['note'],
                 'technique': c['technique'],
